@@ -16,7 +16,7 @@ import glob
 import hashlib
 import os
 
-from .common import BUILD, ENGINE, HARNESS, NCPU, REPO, VERIF, Broken, log, mkdirs, run
+from .common import BUILD, CCACHE_DIR, ENGINE, HARNESS, NCPU, REPO, VERIF, Broken, log, mkdirs, run
 
 CXX = "g++"
 BASE = ["-std=gnu++17", "-DOPENTELEMETRY_ABI_VERSION_NO=1", "-DNDEBUG", "-w",
@@ -39,7 +39,7 @@ LINK = {
 
 
 def _env():
-    e = {"CCACHE_DIR": os.path.join(BUILD, "ccache"), "CCACHE_MAXSIZE": "8G",
+    e = {"CCACHE_DIR": CCACHE_DIR, "CCACHE_MAXSIZE": "8G",
          "CCACHE_BASEDIR": "/", "CCACHE_NOHASHDIR": "1",
          "CCACHE_SLOPPINESS": "time_macros,include_file_mtime,include_file_ctime"}
     return e
